@@ -438,7 +438,7 @@ fn hint_case(prog: &[GOp], substs: &[Subst], forge: Option<Forge>, ctx: &mut Ctx
             }
             // witness forging (last: it adds the materialising constraints to the system)
             if let Some(fg) = forge {
-                if s_idx < 7 && !m.has_lazy {
+                if s_idx < 20 && !m.has_lazy {
                     let outcomes = forge_round(&m, fg, sat);
                     FORGED.with(|f| f.borrow_mut().extend(outcomes));
                 }
@@ -453,6 +453,9 @@ fn hint_case(prog: &[GOp], substs: &[Subst], forge: Option<Forge>, ctx: &mut Ctx
         for (col, val, verdict) in forged {
             use crate::forge::Verdict;
             ctx.sub_eval();
+            if std::env::var("VERIF_DEBUG_FORGE").is_ok() && verdict != Verdict::Rejected {
+                eprintln!("FORGE-OUTCOME subst={} col={col} val={} verdict={verdict:?}", s.name(), &val[..8.min(val.len())]);
+            }
             match verdict {
                 Verdict::Rejected => ctx.class("forged-witness|rejected"),
                 Verdict::SatisfiedHarmless => ctx.class("forged-witness|satisfied,observables-unchanged(free internal witness)"),
@@ -857,6 +860,9 @@ impl Property for C14 {
             Subst { flag: FlagSel::True, y: YSel::SqrtZetaInv(false), site: None },
             Subst { flag: FlagSel::Honest, y: YSel::One, site: None },
         ];
+        // ... at every site, at the first site only (the decoding inside a witness allocation) and at the second
+        // site only (the gadget under test, with the allocation left honest)
+        let forge_substs: Vec<Subst> = [None, Some(0u8), Some(1u8)].iter().flat_map(|site| forge_substs.iter().map(move |s| Subst { site: *site, ..s.clone() })).collect();
         let all_cols = tier.pick(400, 100_000) as u32;
         for (k, prog) in instances.iter().enumerate() {
             v.push(Case::Hint { prog: prog.clone(), substs: forge_substs.clone(), forge: Some(Forge { seed: k as u64, max: all_cols }) });
